@@ -58,8 +58,36 @@ def log(*a):
     print("[%6.1fs]" % (time.time() - _T0), *a, file=sys.stderr, flush=True)
 
 
+_swept = []
+
+
+def _sweep_stale():
+    """scratch directories / harness binaries of runs that were killed (their process is gone) are removed"""
+    if _swept:
+        return
+    _swept.append(1)
+    for base in (WORK, os.path.join(WORK, "bin")):
+        try:
+            names = os.listdir(base)
+        except OSError:
+            continue
+        for name in names:
+            parts = name.split(".")
+            if len(parts) < 2 or not parts[1].isdigit() or os.path.exists("/proc/%s" % parts[1]):
+                continue
+            path = os.path.join(base, name)
+            if os.path.isdir(path):
+                shutil.rmtree(path, ignore_errors=True)
+            else:
+                try:
+                    os.remove(path)
+                except OSError:
+                    pass
+
+
 def scratch(tag):
     os.makedirs(WORK, exist_ok=True)
+    _sweep_stale()
     d = tempfile.mkdtemp(prefix="%s.%d." % (tag, os.getpid()), dir=WORK)
     _scratch_dirs.append(d)
     return d
